@@ -266,6 +266,10 @@ func (ts *Time) UnmarshalJSON(data []byte) error {
 	}
 	switch x := v.(type) {
 	case float64:
+		// the conversion of a float outside the int64 range (or NaN) is implementation defined
+		if x != x || x >= 1<<63 || x < -(1<<63) {
+			return fmt.Errorf("oidc.Time: value %v out of range", x)
+		}
 		*ts = Time(x)
 	case string:
 		// Compatibility with Auth0:
